@@ -52,23 +52,17 @@ pub(crate) fn expressions_as_expression(expressions: Vec<Expression>) -> Express
         return Expression::nil();
     }
 
-    if expressions.len() == 1 {
-        BinaryExpression::new(
-            BinaryOperator::And,
-            expressions.into_iter().next().unwrap(),
-            Expression::nil(),
-        )
-        .into()
-    } else {
-        expressions
-            .into_iter()
-            .rfold(Expression::nil(), |current, value| {
-                BinaryExpression::new(
-                    BinaryOperator::And,
-                    BinaryExpression::new(BinaryOperator::Or, value, true),
-                    current,
-                )
-                .into()
-            })
-    }
+    // each value is evaluated for its side effects only: `(value or true)` is always truthy,
+    // so the chain always continues up to the final `nil` (a plain `value and nil` would
+    // produce `false` when the value is `false`)
+    expressions
+        .into_iter()
+        .rfold(Expression::nil(), |current, value| {
+            BinaryExpression::new(
+                BinaryOperator::And,
+                BinaryExpression::new(BinaryOperator::Or, value, true),
+                current,
+            )
+            .into()
+        })
 }
